@@ -117,7 +117,13 @@ def watch_identity(ctx, RI, P) -> None:
         if mf is None:
             ctx.viol(RI, f"ObservedWatch.{m}", "identity method missing (object identity would be used)", ow.loc)
             continue
-        attrs = {n.attr for n in ast.walk(mf.node) if isinstance(n, ast.Attribute) and isinstance(n.value, ast.Name) and n.value.id in ("self", "watch")}
+        # what the method and the private helpers it calls on self read of the two watches (the helpers' names themselves are not data)
+        attrs = set()
+        for hf in P.self_closure("ObservedWatch", m):
+            params = {a.arg for a in hf.node.args.args}
+            attrs |= {n.attr for n in ast.walk(hf.node) if isinstance(n, ast.Attribute) and isinstance(n.value, ast.Name) and n.value.id in params | {"self", "watch"}}
+        attrs -= {h for h in ow.methods if h != "key" and not any(isinstance(d, ast.Name) and d.id == "property" for d in ow.methods[h].node.decorator_list)}
+        attrs -= {"eq", "ne"} if any(isinstance(n, ast.Attribute) and isinstance(n.value, ast.Name) and n.value.id == "operator" for hf in P.self_closure("ObservedWatch", m) for n in ast.walk(hf.node)) else set()
         ctx.check(attrs == {"key"}, RI, f"ObservedWatch.{m}", f"reads {sorted(attrs)}: identity must be a function of the one key", mf.loc)
     kf = ow.methods.get("key")
     if kf is None:
@@ -227,7 +233,9 @@ def run(ctx) -> None:
         {"H0", "E0", "M0", "W0"},  # clear
         set(),
     ]
-    mutators = ["schedule", "add_handler_for_watch", "remove_handler_for_watch", "unschedule", "unschedule_all"]
+    # stop() is a mutator too: whatever was scheduled -- also after an earlier stop() -- is gone when it returns (it reaches
+    # unschedule_all through the thread's stop hook, on every path)
+    mutators = ["schedule", "add_handler_for_watch", "remove_handler_for_watch", "unschedule", "unschedule_all", "stop"]
     cfg2 = ThreadCfg(P, no_inline={"join", "is_alive", "dispatch", "queue_events", "BaseThread.start", "EventEmitter.stop"}, follow_attrs=False)
     for mname in mutators:
         mfi = P.find_method(cls, mname)
@@ -248,6 +256,7 @@ def run(ctx) -> None:
                 "remove_handler_for_watch": {"h-"},
                 "unschedule": {"H-", "E-", "M-", "W-"},
                 "unschedule_all": {"H0", "E0", "M0", "W0"},
+                "stop": {"H0", "E0", "M0", "W0"},
             }[mname]
             missing = required - sig
             ctx.check(
